@@ -543,7 +543,7 @@ func corruptExpr(r *gen.Rng, src string) (string, string) {
 }
 
 // rawStringExprs exercise the lexer's raw-string scratch buffer.
-var rawStringExprs = []string{"'a\\'b'", "'it\\'s' | length(@)", "foo['x\\'y' == bar]", "'\\'' ", "[?a == 'q\\'r'].b", "'plain'", "contains('a\\'b', 'a')"}
+var rawStringExprs = []string{"'it\\'s  me'", "'it\\'s me'", "'a\\' b' | length(@)", "\"q\\\"  x\"", "`\"a\\`  b\"`", "'a\\'b'", "'it\\'s' | length(@)", "foo['x\\'y' == bar]", "'\\'' ", "[?a == 'q\\'r'].b", "'plain'", "contains('a\\'b', 'a')"}
 
 func corruptDoc(r *gen.Rng, text string) string {
 	var v interface{}
@@ -612,11 +612,18 @@ func genHistory(master uint64, idx int) *History {
 		for i := 2 + r.Intn(2); i > 0; i-- {
 			pool = append(pool, typedExprs[r.Intn(len(typedExprs))])
 		}
-		base = DocSpec{Kind: "typed", Name: typedDocNames[r.Intn(len(typedDocNames))]}
+		base = DocSpec{Kind: "typed", Name: typedDocNames[r.Intn(len(typedDocNames))], CapSeed: typedSeed(r)}
 		h.Mode = "fresh"
 	}
 	if r.Chance(1, 4) {
 		pool = append(pool, rawStringExprs[r.Intn(len(rawStringExprs))])
+	}
+	if base.Kind == "json" && r.Chance(1, 5) {
+		pool = append(pool, gen.GuardFilters[r.Intn(len(gen.GuardFilters))])
+	}
+	// near-duplicate spellings (lossy cache keys, interning tables)
+	for i := r.Intn(3); i > 0; i-- {
+		pool = append(pool, gen.Variant(r, pool[r.Intn(len(pool))]))
 	}
 	h.Exprs = pool
 	for i, e := range pool {
@@ -752,6 +759,9 @@ func genMarathon(master uint64, idx int) *History {
 		if r.Chance(1, 2) {
 			e = systematic[r.Intn(len(systematic))]
 		}
+		if len(h.Compiled) == 0 && r.Chance(2, 3) {
+			e = gen.GuardFilters[r.Intn(len(gen.GuardFilters))]
+		}
 		if compiles(e) {
 			h.Exprs = append(h.Exprs, e)
 			h.Compiled = append(h.Compiled, len(h.Exprs)-1)
@@ -775,10 +785,19 @@ func genMarathon(master uint64, idx int) *History {
 			h.Ops = append(h.Ops, HOp{Kind: "search", Obj: r.Intn(len(h.Compiled)), Doc: r.Intn(len(h.Docs))})
 		case x < 30:
 			h.Ops = append(h.Ops, HOp{Kind: "oneshot", Expr: r.Intn(len(h.Compiled)), Doc: r.Intn(len(h.Docs))})
+		case x < 36:
+			base := h.Exprs[r.Intn(len(h.Exprs))]
+			if r.Chance(1, 3) {
+				base = rawStringExprs[r.Intn(len(rawStringExprs))]
+			}
+			h.Exprs = append(h.Exprs, gen.Variant(r, base))
+			h.Ops = append(h.Ops, HOp{Kind: "oneshot", Expr: len(h.Exprs) - 1, Doc: r.Intn(len(h.Docs))})
 		default:
 			src, fault := pick(), ""
 			switch y := r.Intn(100); {
+			case y < 25:
 			case y < 35:
+				src = gen.Variant(r, src)
 			case y < 80:
 				src, fault = corruptExpr(r, src)
 			case y < 97:
@@ -911,10 +930,11 @@ func minimiseHistory(h0 *History, class, sig string) *History {
 	if !repro(cur) {
 		return nil
 	}
-	for progress := true; progress && budget > 0; {
+	expired := func() bool { return budget <= 0 || time.Now().After(deadline) }
+	for progress := true; progress && !expired(); {
 		progress = false
-		for chunk := len(cur.Ops) / 2; chunk >= 1; chunk /= 2 {
-			for i := 0; i+chunk <= len(cur.Ops); {
+		for chunk := len(cur.Ops) / 2; chunk >= 1 && !expired(); chunk /= 2 {
+			for i := 0; i+chunk <= len(cur.Ops) && !expired(); {
 				c := cloneHistory(cur)
 				c.Ops = append(append([]HOp{}, cur.Ops[:i]...), cur.Ops[i+chunk:]...)
 				if len(c.Ops) > 0 && repro(c) {
@@ -929,6 +949,9 @@ func minimiseHistory(h0 *History, class, sig string) *History {
 				continue
 			}
 			for _, t := range shrinkJSON(cur.Docs[di].Text) {
+				if expired() {
+					break
+				}
 				c := cloneHistory(cur)
 				c.Docs[di].Text = t
 				if repro(c) {
@@ -945,6 +968,9 @@ func minimiseHistory(h0 *History, class, sig string) *History {
 				}
 			}
 			for _, t := range shrinkExpr(cur.Exprs[ei]) {
+				if expired() {
+					break
+				}
 				if isCompiled && !compiles(t) {
 					continue
 				}
